@@ -1,3 +1,4 @@
+import HcModel.Generated.PairLabels
 import HcProofs.Lemmas.Framing
 /-
   C05 — any alteration of the encrypted stream is detected.
@@ -120,6 +121,15 @@ theorem directions_distinct :
         (serverSess C k).encKey ≠ (serverSess C k).decKey ∧ (clientSess C k).encKey ≠ (clientSess C k).decKey) := by
   have hne : infoRead ≠ infoWrite := by decide
   refine ⟨hne, fun C k => ⟨rfl, rfl⟩, fun C k hinj => ⟨fun h => hne (hinj _ _ h), fun h => hne (hinj _ _ h).symm⟩⟩
+
+/-- …and in the source as it is now (Generated/PairLabels.lean): within each constructor the two HKDF calls use
+    the same salt and different info labels, and the accessory's pair is the controller's pair swapped. -/
+theorem directions_distinct_regenerated :
+    let rows := fun f => (Hc.Generated.labelRows.filter (fun r => r.file == "crypto/secure_session.go" && r.func == f && r.kind == "hkdf")).map (fun r => (r.a, r.b))
+    (match rows "NewSecureSessionFromSharedKey", rows "NewSecureClientSessionFromSharedKey" with
+     | [(s1, e), (s2, d)], [(s3, e'), (s4, d')] => s1 == s2 && s2 == s3 && s3 == s4 && e != d && e == d' && d == e'
+     | _, _ => false) = true := by
+  decide
 
 /-- The original code (counter incremented before verification, F4) violates the property: after one
     forged frame the receiver accepts the sender's frame 1 and releases it without frame 0. -/
